@@ -38,13 +38,15 @@ INFOS = ["none", "cop", "lic", "both"]
 # level options: ("none",) | ("one", prec, info) | ("two", prec, info)
 LEVEL_OPTS = [("none",)] + [("one", p, i) for p in PRECS for i in INFOS] + [("two", p, i) for p in PRECS for i in INFOS]
 LEVEL_DIRS = ["", "d", "d/e"]
+# directory names for the two nested levels, varied per project: names sorting before and after 'REUSE.toml'
+DIR_NAMES = [("d", "e"), ("Docs", "e"), ("d", "3rdparty"), (".cfg", "A"), ("src", "Zeta"), ("REUSE", "x")]
 
 
 def toml_str(s):
     return "'" + s + "'"
 
 
-def build_project(cells, dep5=False):
+def build_project(cells, dep5=False, dirs=("d", "e")):
     """cells: list of (k, own, dotlic, [opt0, opt1, opt2]) (or dep5 option
     ("none",)/("one",)/("two",) in slot 0).  Returns (files, expected) where
     expected[k] = (items, strict, allowed)."""
@@ -52,8 +54,9 @@ def build_project(cells, dep5=False):
     tables = {0: [], 1: [], 2: []}
     dep5_paras = []
     expected = {}
+    LEVEL_DIRS = ["", dirs[0], f"{dirs[0]}/{dirs[1]}"]  # noqa: N806
     for k, own, dotlic, opts in cells:
-        rel = f"d/e/f{k}.txt"
+        rel = f"{dirs[0]}/{dirs[1]}/f{k}.txt"
         own_info = None
         if own == "binary":
             files[rel] = b"\x00\x01\x02\xff\xfe\x00SPDX-License-Identifier: LicenseRef-bin%d\n\x00" % k
@@ -170,13 +173,13 @@ def observed_items(entry):
     return out
 
 
-def run_project(ctx, cells, dep5=False, mp=False):
-    files, expected = build_project(cells, dep5)
+def run_project(ctx, cells, dep5=False, mp=False, dirs=("d", "e")):
+    files, expected = build_project(cells, dep5, dirs)
     root = ctx.fresh_dir()
     try:
         tree.write_tree(root, files)
         res, data = tree.lint_json(root, mp=mp)
-        cdesc = {"cells": [[k, own, dl, [list(o) if o else None for o in opts]] for k, own, dl, opts in cells], "dep5": dep5}
+        cdesc = {"cells": [[k, own, dl, [list(o) if o else None for o in opts]] for k, own, dl, opts in cells], "dep5": dep5, "dirs": list(dirs)}
         if data is None:
             ctx.fail(cdesc, f"lint --json failed: {res.brief()}")
         by_path = {f["path"]: f for f in data["files"]}
@@ -189,10 +192,10 @@ def run_project(ctx, cells, dep5=False, mp=False):
                 ctx.fail(cdesc, f"{rel} (one of several files matched by one shared table): reported {sorted(observed_items(ent)) if ent else None}, expected {sorted(exp)}")
         for k, own, dotlic, opts in cells:
             rel, exp, strict, allowed = expected[k]
-            cell = {"cells": [[k, own, dotlic, [list(o) if o else None for o in opts]]], "dep5": dep5}
+            cell = {"cells": [[k, own, dotlic, [list(o) if o else None for o in opts]]], "dep5": dep5, "dirs": list(dirs)}
             nsources = (own in ("cop", "lic", "both")) + (dotlic not in ("absent",)) + sum(1 for o in opts if o and o[0] != "none")
             ctx.count(("cell", own, dotlic, tuple(opts), dep5), nontrivial=nsources >= 2,
-                      labels=[f"own:{own}", f"dotlic:{dotlic}", "strict" if strict else "weak", "dep5" if dep5 else f"levels:{sum(1 for o in opts if o and o[0] != 'none')}"],
+                      labels=[f"own:{own}", f"dotlic:{dotlic}", "strict" if strict else "weak", f"dirs:{dirs[0]}/{dirs[1]}", "dep5" if dep5 else f"levels:{sum(1 for o in opts if o and o[0] != 'none')}"],
                       sample={"file": rel, "own": own, "dotlicense": dotlic, "chain": [list(o) if o else None for o in opts], "dep5": dep5,
                               "expected": sorted(map(list, exp)), "strict": strict})
             ent = by_path.get(rel)
@@ -211,7 +214,7 @@ def run_project(ctx, cells, dep5=False, mp=False):
 
 def replay(ctx, case):
     cells = [(k, own, dl, [tuple(o) if o else None for o in opts]) for k, own, dl, opts in case["cells"]]
-    run_project(ctx, cells, dep5=case.get("dep5", False))
+    run_project(ctx, cells, dep5=case.get("dep5", False), dirs=tuple(case.get("dirs", ("d", "e"))))
 
 
 def batches(it, n):
@@ -257,7 +260,7 @@ def run(ctx):
         mine.append((own, dl, opts))
     for n, batch in enumerate(batches(mine, per_project)):
         cells = [(k, own, dl, opts) for k, (own, dl, opts) in enumerate(batch)]
-        run_project(ctx, cells, mp=(n % 7 == 3))
+        run_project(ctx, cells, mp=(n % 7 == 3), dirs=DIR_NAMES[(n + ctx.shard + ctx.seed) % len(DIR_NAMES)])
     # dep5 grid (small): every shard does its slice
     dep_cells = [(own, dl, [o]) for own in OWN for dl in DOTLIC for o in [("none",), ("one",), ("two",)]]
     dmine = [c for i, c in enumerate(dep_cells) if i % ctx.nshards == ctx.shard]
